@@ -8,6 +8,7 @@ import (
 	"github.com/jmattheis/goverter/config"
 	"github.com/jmattheis/goverter/enum"
 	"github.com/jmattheis/goverter/generator"
+	"github.com/jmattheis/goverter/veriftrace"
 )
 
 // GenerateConfig the config for generating a converter.
@@ -70,9 +71,11 @@ func writeFiles(files map[string][]byte) error {
 		if err := os.MkdirAll(filepath.Dir(path), 0o755); err != nil {
 			return err
 		}
+		veriftrace.Emit("fs.mkdir", "path", filepath.Dir(path))
 		if err := os.WriteFile(path, content, 0o644); err != nil {
 			return err
 		}
+		veriftrace.Emit("fs.write", "path", path, "bytes", len(content))
 	}
 	return nil
 }
